@@ -24,7 +24,7 @@ CHECKS = {
             "pkg": BS, "funcs": ["VerifC18Close"],
             "max_paths": {"quick": 100000, "thorough": 100000},
             "timeout": {"quick": "15m", "thorough": "30m"},
-            "covers": {"VerifC18Close": ["idle", "mid-write", "mid-replication", "mid-load", "closed", "later-returned"]},
+            "covers": {"VerifC18Close": ["idle", "mid-write", "mid-replication", "mid-load", "pending-fetch", "closed", "later-returned"]},
         }, {
             "pkg": ODB, "funcs": ["VerifC18Drop"],
             "params": {"quick": {"L": 1}, "thorough": {"L": 2}},
